@@ -832,7 +832,7 @@ func (ep *episode) asciiRoundTrip(jr *jobRun) Check {
 	indent := pick(r, []string{"", " ", "  ", "\t", "    "})
 	eol := pick(r, []string{"\n", "\n", "\r\n"})
 	trail := pick(r, []string{"", "", " ", "\t"})
-	numStyle := r.Intn(4)
+	numStyle := r.Intn(7)
 	blank := r.Intn(4) == 0
 	name := pick(r, []string{"verif", "", "a b c", "solid"})
 	g := func(v float64) string {
@@ -847,6 +847,14 @@ func (ep *episode) asciiRoundTrip(jr *jobRun) Check {
 			return t
 		case 3: // upper-case exponent
 			return strings.ToUpper(strconv.FormatFloat(v, 'e', 17, 64))
+		case 4: // what most exporters write: six or seven significant digits (the file then LISTS the rounded value)
+			return strconv.FormatFloat(v, 'e', 6, 64)
+		case 5:
+			return strings.ToUpper(strconv.FormatFloat(v, 'E', 7, 32))
+		case 6: // fixed notation with few decimals
+			if math.Abs(v) < 1e15 {
+				return strconv.FormatFloat(v, 'f', 4, 64)
+			}
 		}
 		return strconv.FormatFloat(v, 'g', -1, 64)
 	}
@@ -891,10 +899,15 @@ func (ep *episode) asciiRoundTrip(jr *jobRun) Check {
 	if len(mesh) != len(jr.state.tris) {
 		return bad("stl-ascii-load", "ASCII STL lists %d facets, LoadSTL returned %d", len(jr.state.tris), len(mesh))
 	}
+	listed := func(v float64) float64 { // the value the file lists: its text read by strconv, not by the library
+		x, _ := strconv.ParseFloat(g(v), 64)
+		return x
+	}
 	for i, t := range jr.state.tris {
 		for k := 0; k < 3; k++ {
-			if f64key(t[k].X+0) != f64key(mesh[i][k].X+0) || f64key(t[k].Y+0) != f64key(mesh[i][k].Y+0) || f64key(t[k].Z+0) != f64key(mesh[i][k].Z+0) {
-				return bad("stl-ascii-load", "ASCII facet %d vertex %d: listed (%g,%g,%g), loaded (%g,%g,%g)", i, k, t[k].X, t[k].Y, t[k].Z, mesh[i][k].X, mesh[i][k].Y, mesh[i][k].Z)
+			lx, ly, lz := listed(t[k].X), listed(t[k].Y), listed(t[k].Z)
+			if f64key(lx+0) != f64key(mesh[i][k].X+0) || f64key(ly+0) != f64key(mesh[i][k].Y+0) || f64key(lz+0) != f64key(mesh[i][k].Z+0) {
+				return bad("stl-ascii-load", "ASCII facet %d vertex %d: listed (%s,%s,%s), loaded (%g,%g,%g)", i, k, g(t[k].X), g(t[k].Y), g(t[k].Z), mesh[i][k].X, mesh[i][k].Y, mesh[i][k].Z)
 			}
 		}
 	}
